@@ -464,6 +464,8 @@ pub fn init_rows(rel: &str) -> Vec<Value> {
 /// What the generated glue of every corpus program implements.
 pub trait Driven {
    fn push(&mut self, rel: &str, row: &Value);
+   /// the caller replaces the contents of a relation field by the empty relation (`prog.r = Default::default()`)
+   fn clear(&mut self, _rel: &str) { panic!("verif harness: clear is not available for this variant") }
    fn run(&mut self);
    /// `None`: the variant was not compiled with `generate_run_timeout`.
    fn run_timeout(&mut self, _nanos: u64) -> Option<bool> { None }
@@ -572,6 +574,15 @@ pub fn drive_lines(case: &Value, mk: fn() -> Box<dyn Driven>, hooks: bool) -> Ve
                d.0.push(rel, row);
             }
             out.push(ev(vec![("e", Value::str("push")), ("rel", Value::str(rel)), ("rows", op["rows"].clone())]));
+         },
+         "set" => {
+            // the caller overwrites a relation field: clear + push
+            let rel = op["rel"].as_str().unwrap();
+            d.0.clear(rel);
+            for row in op["rows"].as_array().unwrap() {
+               d.0.push(rel, row);
+            }
+            out.push(ev(vec![("e", Value::str("set")), ("rel", Value::str(rel)), ("rows", op["rows"].clone())]));
          },
          kind @ ("run" | "run_timeout") => {
             let pool = op["pool"].as_u64().unwrap_or(0);
